@@ -80,6 +80,12 @@ def dec(v):
         raise ValueError(v)
     if isinstance(v, list):
         return [dec(x) for x in v]
+    # labels handed to xgi are *equal* to the ones it already holds but never the same object
+    # (code that compares with `is` instead of `==` must not get away with it)
+    if type(v) is str and v:
+        return (v + "\0")[:-1]
+    if type(v) is float:
+        return v + 0.0 if v == v else v
     return v
 
 
